@@ -212,8 +212,8 @@ def run(chk):
         fam = [f for q, f in enumerate(fam) if "-read" in f[0] or "-r1-" in f[0] or (q // 4) % 2 == chk.seed % 2]
     sources += [(name, c08_gen.wrap_loop(chk.rng, lines), "free2-family") for name, lines in fam]
     fam = c08_gen.member_family()
-    if chk.tier != "thorough":       # quick: every member whose loop modifies the signature it uses + a third of the rest
-        fam = [f for q, f in enumerate(fam) if "-same-" in f[0] or q % 3 == chk.seed % 3]
+    if chk.tier != "thorough":       # quick: every member whose loop modifies the signature it uses + a quarter of the rest
+        fam = [f for q, f in enumerate(fam) if "-same-" in f[0] or q % 4 == chk.seed % 4]
     sources += [(name, c08_gen.wrap_loop(chk.rng, lines, structs=True), "member-family") for name, lines in fam]
     for q in range(n):
         s, fl = c08_gen.gen_source(chk.rng)
